@@ -29,8 +29,18 @@ def import_bits():
     return bits
 
 
+RAISED = []  # every HarnessError constructed in this process since the runner last cleared it
+
+
 class HarnessError(Exception):
-    """Anything that is the machinery's fault; never a verdict."""
+    """Anything that is the machinery's fault; never a verdict.  The code under test may
+    swallow an exception raised inside it (a broad except in a receive loop, a thread that
+    dies quietly), so construction is recorded: a run during which one was raised is a
+    harness error whatever the oracles made of the aftermath."""
+
+    def __init__(self, *a):
+        super().__init__(*a)
+        RAISED.append(self)
 
 
 class HarnessUnsupported(HarnessError):
